@@ -80,7 +80,13 @@ pub struct RefPartial {
 
 /// the checks of the verifier in the documented order of errors, then the recomputation
 pub fn ref_check(h: usize, leafs: &[(usize, Digest)], auth: &[Digest]) -> (RefVerdict, Option<RefPartial>) {
-    if h > MAX_H {
+    ref_check_lim(h, leafs, auth, MAX_H)
+}
+
+/// `max_h` = the largest admissible height (the generator uses a larger one to produce proofs that would be
+/// accepted if the height limit were wrong)
+pub fn ref_check_lim(h: usize, leafs: &[(usize, Digest)], auth: &[Digest], max_h: usize) -> (RefVerdict, Option<RefPartial>) {
+    if h > max_h {
         return (RefVerdict::TooHigh, None);
     }
     let n = 1usize << h;
@@ -205,6 +211,13 @@ fn verify_reply(h: usize, leafs: &[(usize, Digest)], auth: &[Digest], root: Dige
     let (want, class) = ref_verify(h, leafs, auth, root);
     st.hit(&format!("verify:{}", class));
     st.hit(&format!("verify:height-class:{}", height_class(h)));
+    if h > MAX_H && h <= 62 {
+        if let RefVerdict::Computed(r) = ref_check_lim(h, leafs, auth, 62).0 {
+            if r == root {
+                st.hit("verify:reject:height(everything else valid)");
+            }
+        }
+    }
     if leafs.len() > 1 {
         let mut is: Vec<usize> = leafs.iter().map(|x| x.0).collect();
         is.sort_unstable();
@@ -283,7 +296,19 @@ fn index_class(i: usize, n: usize) -> &'static str {
     }
 }
 
+/// implementation-side totality oracle: verification, path expansion and every accessor return a verdict, an error
+/// or None for *every* input -- a panic is a property violation by itself (independent of the model)
 pub fn run_mt(op: &str, a: &[Arg], st: &mut Stats) -> Option<Out> {
+    match std::panic::catch_unwind(std::panic::AssertUnwindSafe(|| run_mt_inner(op, a, st))) {
+        Ok(r) => r,
+        Err(_) => {
+            st.hit(&format!("PANIC:{}", op));
+            Some(Out::ok("panic").with_oracle(false, format!("`{}` panicked; it must return a verdict, an error or None for every input", op)))
+        }
+    }
+}
+
+fn run_mt_inner(op: &str, a: &[Arg], st: &mut Stats) -> Option<Out> {
     Some(match (op, a) {
         ("verify", [h, ls, au, r]) => {
             let (h, ls, au, r) = (h.usize()?, parse_leafs(ls)?, au.digests()?, r.digest()?);
@@ -460,7 +485,7 @@ pub fn synth(rng: &mut Rng, h: usize, max_len: usize) -> Synth {
     let leafs: Vec<(usize, Digest)> = idx.iter().map(|&i| (i, *claimed.entry(i).or_insert_with(|| rand_digest(rng)))).collect();
     let keys: Vec<usize> = claimed.keys().copied().collect();
     let auth: Vec<Digest> = ref_needed(h, &keys).iter().map(|_| rand_digest(rng)).collect();
-    let root = match ref_check(h, &leafs, &auth).0 {
+    let root = match ref_check_lim(h, &leafs, &auth, 62).0 {
         RefVerdict::Computed(r) => r,
         _ => Digest::default(),
     };
@@ -568,6 +593,34 @@ pub fn rand_leaves(rng: &mut Rng, n: usize) -> Vec<Digest> {
     }
 }
 
+/// the out-of-range boundary set of an n-leaf tree (n-1 is the last valid index)
+pub fn boundary_indices(n: usize) -> Vec<usize> {
+    let mut v = vec![n - 1, n, n + 1, 2 * n - 1, 2 * n, 2 * n + 1, (1 << 32) - 1, 1 << 32, 1 << 63, usize::MAX - 2 * n + 1,
+        usize::MAX - n, usize::MAX - n + 1, usize::MAX - 2, usize::MAX - 1, usize::MAX];
+    v.dedup();
+    v
+}
+
+/// every index-taking accessor, every boundary index, alone and mixed into an otherwise valid list at every
+/// position class (front, middle, back), for one tree
+pub fn boundary_cross(rng: &mut Rng, h: usize, leaves: &[Digest], out: &mut Vec<String>) {
+    let n = 1usize << h;
+    let ds = fmt_digests(leaves);
+    let f = |v: &[usize]| fmt_list_u64(&v.iter().map(|&x| x as u64).collect::<Vec<_>>());
+    let b = boundary_indices(n);
+    out.push(format!("mt leaf {} {}", ds, f(&b)));
+    out.push(format!("mt node {} {}", ds, f(&b)));
+    for &x in &b {
+        for opn in ["auth_structure", "proof", "indexed_leafs"] {
+            out.push(format!("mt {} {} {}", opn, ds, f(&[x])));
+            let mut is = gen_indices(rng, h, 5);
+            let pos = match rng.below(3) { 0 => 0, 1 => is.len(), _ => rng.below(is.len() as u64 + 1) as usize };
+            is.insert(pos, x);
+            out.push(format!("mt {} {} {}", opn, ds, f(&is)));
+        }
+    }
+}
+
 fn accessor_indices(rng: &mut Rng, n: usize) -> Vec<usize> {
     let c = [0, 1, n - 1, n, n + 1, 2 * n - 1, 2 * n, 2 * n + 1, usize::MAX, usize::MAX - 1, usize::MAX - 2, usize::MAX - n,
         usize::MAX - n + 1, usize::MAX - n + 2, usize::MAX - 2 * n, usize::MAX - 2 * n + 1, usize::MAX - 2 * n + 2, 1 << 63, 1 << 32, n / 2];
@@ -606,11 +659,11 @@ pub fn gen(rng: &mut Rng, thorough: bool, out: &mut Vec<String>) {
     }
 
     // ---- (2) synthetic proofs of every height up to the maximum, accepted ones and mutants
-    let rounds = if thorough { 6000 } else { 420 };
+    let rounds = if thorough { 4000 } else { 420 };
     for r in 0..rounds {
         let h = match rng.below(10) {
             0 => 0,
-            1 => 1,
+            1 => if r % 4 == 0 { *rng.pick(&[32usize, 32, 33, 40, 62]) } else { 1 },
             2 => 31,
             3 => 30,
             4 => *rng.pick(&[2usize, 3, 4, 5]),
@@ -636,6 +689,11 @@ pub fn gen(rng: &mut Rng, thorough: bool, out: &mut Vec<String>) {
         emit_verify(out, h, &[(usize::MAX, d)], &[], &d);
     }
 
+    // ---- (3a) every index-taking accessor x every boundary index, for every tree size from the 1-leaf tree on
+    for h in 0..=(if thorough { 8 } else { 5 }) {
+        let leaves = rand_leaves(rng, 1usize << h);
+        boundary_cross(rng, h, &leaves, out);
+    }
     // ---- (3) honest trees: accessors with indices over all of usize, proofs for arbitrary index lists
     let trees = if thorough { 400 } else { 60 };
     for t in 0..trees {
@@ -648,10 +706,10 @@ pub fn gen(rng: &mut Rng, thorough: bool, out: &mut Vec<String>) {
         out.push(format!("mt node {} {}", ds, f(&accessor_indices(rng, n))));
         for _ in 0..3 {
             let mut is = gen_indices(rng, h, 10);
-            if rng.coin(1, 5) { // one out-of-range index
+            if rng.coin(1, 3) { // one out-of-range index from the boundary set
                 let pos = rng.below(is.len() as u64) as usize;
-                let cand = accessor_indices(rng, n);
-                is[pos] = *rng.pick(&cand);
+                let cand = boundary_indices(n);
+                is[pos] = *rng.pick(&cand[1..]);
             }
             let opn = *rng.pick(&["proof", "proof", "auth_structure", "indexed_leafs"]);
             out.push(format!("mt {} {} {}", opn, ds, f(&is)));
